@@ -51,6 +51,12 @@ def path_case(draw, defaults=False):
         pa = {"alpha_multiplier": 2.0, "min_features": draw(st.integers(1, 2)), "keep_threshold": 0.9}
         pa[which] = draw(st.sampled_from({"alpha_multiplier": [1.0, 0.5, -2.0], "keep_threshold": [-0.1, 1.5, 7.0],
                                           "min_features": [0, -1, -5]}[which]))
+        if which == "keep_threshold":
+            # several steps with scores close to one another, so that the value of the threshold matters
+            s["alpha"] = draw(st.sampled_from([0.05, 0.1, 0.2]))
+            s["learning_rate"] = draw(st.sampled_from([0.1, 0.5]))
+            pa["alpha_multiplier"] = draw(st.sampled_from([1.3, 1.5]))
+            pa["min_features"] = 1
         return {"spec": s, "path": pa, "which": which}
     pa = {"alpha_multiplier": draw(st.sampled_from([1.5, 1.2, 2.0, 1.5, 4.0])),
           "min_features": draw(st.sampled_from([1, 2, 3, d, d + 1, 2, 1])),
